@@ -1,15 +1,26 @@
 // C09 correspondence harness: builds real MockNamedValue objects from value tokens, calls the real
-// MockNamedValue::equals in both directions and every integer getter inside a real test (fixture.h).
+// MockNamedValue::equals in both directions and every getter inside a real test (fixture.h), and drives the rest
+// of MockNamedValue.cpp (toString, compatibleForCopying, names, MockNamedValueList, the comparator/copier repository).
 //
 // ops:   eq <A> <B>        -> "r <a.equals(b)> <b.equals(a)>"
-//        get <A>           -> one line per getter: "<getter> ok <decimal>" | "<getter> fail"
+//        get <A>           -> one line per integer getter: "<getter> ok <decimal>" | "<getter> fail"
+//        getx <A>          -> the other getters: "<getter> ok <rendering>" | "<getter> fail" (object getters for obj/cobj only)
+//        tostr <A>         -> environment lines "g6 <hex>" (finite double: snprintf %.6g) / "addr <decimal>" (pointer payload),
+//                             then "t <hex of getType()>" and "s <hex of toString()>"
+//        compat <A> <B>    -> "c <a.compatibleForCopying(b)> <b.compatibleForCopying(a)>"
+//        name <X> <Y>      -> MockNamedValue(X): "n0 <getName>" "t0 <getType>" "s0 <toString>"; setName(Y): "n1 <getName>"
+//        ladd <name> <A> / lget <name> / llist / lclear          the case's MockNamedValueList (items numbered from 1)
+//        rcmp <r> <Type> <id> / rcop <r> <Type> <id> / rget <r> <Type> / rimport <r> <r2> / rclear <r> / rdefault <r|none>
+//                             four repositories r = 0..3; 0 starts with CmpMod3 -> comparator 1, CmpId -> comparator 2
+//                             and is the default repository; comparators 1 (k%3 equal) 2 (k equal) 3 (always) 4 (never),
+//                             copiers 1..2
 // value tokens (one word):
 //        int:<n> uint:<n> long:<n> ulong:<n> llong:<n> ullong:<n>     decimal or 0x hex, must fit the type
-//        bool:<0|1>   dbl:<16 hex: value bits>:<16 hex: tolerance bits>
+//        bool:<0|1>   dbl:<16 hex: value bits>:<16 hex: tolerance bits>   dbld:<16 hex>  (setValue(double): default tolerance)
 //        str:<hex bytes|-|null>   mem:<hex bytes|->
 //        ptr:<k> cptr:<k> fptr:<k>            k = index into a fixed pool, 0 = NULL
-//        obj:<Type>:<k> cobj:<Type>:<k>       setObjectPointer / setConstObjectPointer; comparators are
-//                                            installed for the types CmpMod3 (k%3 equal) and CmpId (k equal)
+//        obj:<Type>:<k> cobj:<Type>:<k>       setObjectPointer / setConstObjectPointer (comparator/copier looked up in the
+//                                            default repository at that moment)
 // The echoed op is canonical (integers re-printed from the stored C value).
 #include "fixture.h"
 #include "CppUTestExt/MockNamedValue.h"
@@ -30,14 +41,36 @@ const int NFN = (int) (sizeof(g_fns) / sizeof(g_fns[0]));
 
 int pool_index(const void* p) { return p ? (int) ((const char*) p - g_pool) : 0; }
 
-struct Mod3Comparator : public MockNamedValueComparator {
-    bool isEqual(const void* a, const void* b) CPPUTEST_OVERRIDE { return pool_index(a) % 3 == pool_index(b) % 3; }
-    SimpleString valueToString(const void* a) CPPUTEST_OVERRIDE { return StringFrom(pool_index(a)); }
+// comparator objects 1..4 and copier objects 1..2 (0 = none)
+struct TestComparator : public MockNamedValueComparator {
+    int id;
+    explicit TestComparator(int i) : id(i) {}
+    bool isEqual(const void* a, const void* b) CPPUTEST_OVERRIDE {
+        switch (id) {
+            case 1: return pool_index(a) % 3 == pool_index(b) % 3;
+            case 2: return a == b;
+            case 3: return true;
+            default: return false;
+        }
+    }
+    SimpleString valueToString(const void* a) CPPUTEST_OVERRIDE {
+        switch (id) {
+            case 1: case 2: return StringFrom(pool_index(a));
+            case 3: return SimpleString("T") + StringFrom(pool_index(a));
+            default: return "";
+        }
+    }
 };
-struct IdComparator : public MockNamedValueComparator {
-    bool isEqual(const void* a, const void* b) CPPUTEST_OVERRIDE { return a == b; }
-    SimpleString valueToString(const void* a) CPPUTEST_OVERRIDE { return StringFrom(pool_index(a)); }
+struct TestCopier : public MockNamedValueCopier {
+    void copy(void*, const void*) CPPUTEST_OVERRIDE {}
 };
+TestComparator g_cmp1(1), g_cmp2(2), g_cmp3(3), g_cmp4(4);
+TestComparator* g_cmps[5] = { 0, &g_cmp1, &g_cmp2, &g_cmp3, &g_cmp4 };
+TestCopier g_cop1, g_cop2;
+TestCopier* g_cops[3] = { 0, &g_cop1, &g_cop2 };
+int cmp_id(MockNamedValueComparator* c) { for (int i = 1; i < 5; i++) if (g_cmps[i] == c) return i; return c ? -1 : 0; }
+int cop_id(MockNamedValueCopier* c) { for (int i = 1; i < 3; i++) if (g_cops[i] == c) return i; return c ? -1 : 0; }
+int fn_index(void (*f)()) { for (int i = 1; i < NFN; i++) if (g_fns[i] == f) return i; return f ? -1 : 0; }
 
 bool is_hex(const std::string& h) {
     if (h == "-") return true;
@@ -75,6 +108,7 @@ bool parse_bits(const std::string& h, double& d) {
 }
 std::string lower(std::string s) { for (size_t i = 0; i < s.size(); i++) if (s[i] >= 'A' && s[i] <= 'F') s[i] = (char) (s[i] + 32); return s; }
 
+bool valid_type(const std::string& type);
 // storage that must outlive the MockNamedValue (strings and buffers are held by pointer)
 struct Store { std::string s; std::vector<unsigned char> m; };
 
@@ -100,6 +134,12 @@ std::string build(MockNamedValue& v, const std::string& tok, Store& st) {
         v.setValue(d, t);
         return "dbl:" + lower(rest);
     }
+    if (kind == "dbld") {
+        double d;
+        if (!parse_bits(rest, d)) return "";
+        v.setValue(d);
+        return "dbld:" + lower(rest);
+    }
     if (kind == "str") {
         if (rest == "null") { v.setValue((const char*) 0); return "str:null"; }
         if (!is_hex(rest)) return "";
@@ -122,10 +162,9 @@ std::string build(MockNamedValue& v, const std::string& tok, Store& st) {
         size_t c2 = rest.find(':');
         if (c2 == std::string::npos || c2 == 0) return "";
         std::string type = rest.substr(0, c2);
-        for (size_t i = 0; i < type.size(); i++) if (!isalnum((unsigned char) type[i])) return "";
         // a custom type named like a built-in one makes equals/getters read an inactive union member:
         // outside the property's quantifier (ASSUMPTIONS: Mock.WF)
-        if (type == "int" || type == "bool" || type == "double") return "";
+        if (!valid_type(type)) return "";
         if (!parse_index(rest.substr(c2 + 1), POOL, k)) return "";
         if (kind == "obj") v.setObjectPointer(type.c_str(), (void*) (k ? g_pool + k : 0));
         else v.setConstObjectPointer(type.c_str(), (const void*) (k ? g_pool + k : 0));
@@ -135,17 +174,39 @@ std::string build(MockNamedValue& v, const std::string& tok, Store& st) {
     return "";
 }
 
+bool valid_type(const std::string& type) {
+    if (type.empty() || type.size() > 24) return false;
+    for (size_t i = 0; i < type.size(); i++) if (!isalnum((unsigned char) type[i])) return false;
+    return !(type == "int" || type == "bool" || type == "double");
+}
+std::string kind_of(const std::string& tok) { size_t c = tok.find(':'); return c == std::string::npos ? tok : tok.substr(0, c); }
+std::string shex(const SimpleString& x) { return vh::hex(x.asCharString(), x.size()); }
+bool name_arg(const std::string& w, std::string& store, const char*& out) {      // hex | - | null
+    if (w == "null") { out = 0; return true; }
+    if (!is_hex(w)) return false;
+    store = vh::unhex(w); out = store.c_str(); return true;
+}
+std::string dclass(double d) {
+    char buf[32];
+    if (d != d) return "nan";
+    if (d > 1.7976931348623157e308) return "inf+";
+    if (d < -1.7976931348623157e308) return "inf-";
+    uint64_t u; memcpy(&u, &d, 8); snprintf(buf, sizeof buf, "%016llx", (unsigned long long) u); return buf;
+}
+
 // ---- getters, each inside a real test
 const std::string* g_tok = 0;
 int g_which = 0;
 bool g_returned = false;
 char g_result[64];
+std::string g_xresult;
 
 void getter_body() {
     MockNamedValue v("g");
     Store st;
     build(v, *g_tok, st);
     g_returned = false;
+    char buf[64];
     switch (g_which) {
         case 0: { int r = v.getIntValue(); snprintf(g_result, sizeof g_result, "%d", r); break; }
         case 1: { unsigned int r = v.getUnsignedIntValue(); snprintf(g_result, sizeof g_result, "%u", r); break; }
@@ -153,19 +214,40 @@ void getter_body() {
         case 3: { unsigned long int r = v.getUnsignedLongIntValue(); snprintf(g_result, sizeof g_result, "%lu", r); break; }
         case 4: { cpputest_longlong r = v.getLongLongIntValue(); snprintf(g_result, sizeof g_result, "%lld", (long long) r); break; }
         case 5: { cpputest_ulonglong r = v.getUnsignedLongLongIntValue(); snprintf(g_result, sizeof g_result, "%llu", (unsigned long long) r); break; }
+        // the other getters
+        case 10: { bool r = v.getBoolValue(); g_xresult = r ? "1" : "0"; break; }
+        case 11: { double r = v.getDoubleValue(); g_xresult = dclass(r); break; }
+        case 12: { double r = v.getDoubleTolerance(); g_xresult = dclass(r); break; }
+        case 13: { const char* r = v.getStringValue(); g_xresult = r ? vh::hex(r, strlen(r)) : std::string("null"); break; }
+        case 14: { void* r = v.getPointerValue(); snprintf(buf, sizeof buf, "%d", pool_index(r)); g_xresult = buf; break; }
+        case 15: { const void* r = v.getConstPointerValue(); snprintf(buf, sizeof buf, "%d", pool_index(r)); g_xresult = buf; break; }
+        case 16: { void (*r)() = v.getFunctionPointerValue(); snprintf(buf, sizeof buf, "%d", fn_index(r)); g_xresult = buf; break; }
+        case 17: { const unsigned char* r = v.getMemoryBuffer(); g_xresult = vh::hex(r, v.getSize()); break; }
+        case 18: { size_t r = v.getSize(); snprintf(buf, sizeof buf, "%lu", (unsigned long) r); g_xresult = buf; break; }
+        case 19: { void* r = v.getObjectPointer(); snprintf(buf, sizeof buf, "%d", pool_index(r)); g_xresult = buf; break; }
+        case 20: { const void* r = v.getConstObjectPointer(); snprintf(buf, sizeof buf, "%d", pool_index(r)); g_xresult = buf; break; }
+        case 21: { snprintf(buf, sizeof buf, "%d", cmp_id(v.getComparator())); g_xresult = buf; break; }
+        case 22: { snprintf(buf, sizeof buf, "%d", cop_id(v.getCopier())); g_xresult = buf; break; }
     }
     g_returned = true;
 }
 
 const char* GETTERS[6] = { "getIntValue", "getUnsignedIntValue", "getLongIntValue", "getUnsignedLongIntValue",
                            "getLongLongIntValue", "getUnsignedLongLongIntValue" };
+const char* XGETTERS[13] = { "getBoolValue", "getDoubleValue", "getDoubleTolerance", "getStringValue", "getPointerValue",
+                             "getConstPointerValue", "getFunctionPointerValue", "getMemoryBuffer", "getSize",
+                             "getObjectPointer", "getConstObjectPointer", "getComparator", "getCopier" };
 
 void run_case(const vh::Case& c) {
-    MockNamedValueComparatorsAndCopiersRepository repo;
-    Mod3Comparator mod3; IdComparator idc;
-    repo.installComparator("CmpMod3", mod3);
-    repo.installComparator("CmpId", idc);
-    MockNamedValue::setDefaultComparatorsAndCopiersRepository(&repo);
+    MockNamedValueComparatorsAndCopiersRepository repos[4];
+    repos[0].installComparator("CmpMod3", g_cmp1);
+    repos[0].installComparator("CmpId", g_cmp2);
+    MockNamedValueComparatorsAndCopiersRepository* def = &repos[0];
+    MockNamedValue::setDefaultComparatorsAndCopiersRepository(def);
+    MockNamedValueList list;
+    std::map<MockNamedValue*, unsigned long> seq;
+    unsigned long next_seq = 1;
+    std::vector<std::unique_ptr<Store> > stores;          // payloads of listed values live as long as the case
     for (size_t i = 0; i < c.ops.size(); i++) {
         const vh::Words& w = c.ops[i];
         if (w[0] == "eq" && w.size() == 3) {
@@ -178,6 +260,46 @@ void run_case(const vh::Case& c) {
             bool r2 = b.equals(a);
             vh::emit("r %d %d", r1 ? 1 : 0, r2 ? 1 : 0);
         }
+        else if (w[0] == "compat" && w.size() == 3) {
+            MockNamedValue a("a"), b("b");
+            Store sa, sb;
+            std::string ca = build(a, w[1], sa), cb = build(b, w[2], sb);
+            if (ca.empty() || cb.empty()) { vh::emit("> skip"); continue; }
+            vh::emit("> compat %s %s", ca.c_str(), cb.c_str());
+            vh::emit("c %d %d", a.compatibleForCopying(b) ? 1 : 0, b.compatibleForCopying(a) ? 1 : 0);
+        }
+        else if (w[0] == "tostr" && w.size() == 2) {
+            MockNamedValue a("a"); Store sa;
+            std::string ca = build(a, w[1], sa);
+            if (ca.empty()) { vh::emit("> skip"); continue; }
+            vh::emit("> tostr %s", ca.c_str());
+            // environment inputs, computed from the token (not through the code under test)
+            std::string k = kind_of(ca);
+            std::vector<std::string> f; { std::string cur; for (size_t j = 0; j <= ca.size(); j++) { if (j == ca.size() || ca[j] == ':') { f.push_back(cur); cur.clear(); } else cur.push_back(ca[j]); } }
+            if ((k == "dbl" || k == "dbld") && f.size() >= 2) {
+                double d = 0; parse_bits(f[1], d);
+                if (d == d && d <= 1.7976931348623157e308 && d >= -1.7976931348623157e308) {
+                    char buf[64]; int n = snprintf(buf, sizeof buf, "%.*g", 6, d);
+                    vh::emit("g6 %s", vh::hex(buf, (size_t) n).c_str());
+                }
+            }
+            else if ((k == "ptr" || k == "cptr") && f.size() == 2) { int x = atoi(f[1].c_str()); vh::emit("addr %llu", (unsigned long long) (x ? g_pool + x : 0)); }
+            else if (k == "fptr" && f.size() == 2) { int x = atoi(f[1].c_str()); vh::emit("addr %llu", (unsigned long long) g_fns[x]); }
+            else if ((k == "obj" || k == "cobj") && f.size() == 3) { int x = atoi(f[2].c_str()); vh::emit("addr %llu", (unsigned long long) (x ? g_pool + x : 0)); }
+            vh::emit("t %s", shex(a.getType()).c_str());
+            vh::emit("s %s", shex(a.toString()).c_str());
+        }
+        else if (w[0] == "name" && w.size() == 3) {
+            std::string s1, s2; const char* x = 0; const char* y = 0;
+            if (!name_arg(w[1], s1, x) || !name_arg(w[2], s2, y)) { vh::emit("> skip"); continue; }
+            vh::emit("> name %s %s", w[1] == "null" ? "null" : lower(w[1]).c_str(), w[2] == "null" ? "null" : lower(w[2]).c_str());
+            MockNamedValue v((SimpleString(x)));
+            vh::emit("n0 %s", shex(v.getName()).c_str());
+            vh::emit("t0 %s", shex(v.getType()).c_str());
+            vh::emit("s0 %s", shex(v.toString()).c_str());
+            v.setName(y);
+            vh::emit("n1 %s", shex(v.getName()).c_str());
+        }
         else if (w[0] == "get" && w.size() == 2) {
             std::string ca;
             { MockNamedValue a("a"); Store sa; ca = build(a, w[1], sa); }
@@ -187,14 +309,92 @@ void run_case(const vh::Case& c) {
             for (g_which = 0; g_which < 6; g_which++) {
                 g_returned = false;
                 size_t failures = vh::in_fixture(getter_body);
-                MockNamedValue::setDefaultComparatorsAndCopiersRepository(&repo);
+                MockNamedValue::setDefaultComparatorsAndCopiersRepository(def);
                 if (failures == 0 && g_returned) vh::emit("%s ok %s", GETTERS[g_which], g_result);
                 else if (failures > 0 && !g_returned) vh::emit("%s fail", GETTERS[g_which]);
                 else vh::emit("%s inconsistent failures=%lu returned=%d", GETTERS[g_which], (unsigned long) failures, g_returned ? 1 : 0);
             }
         }
+        else if (w[0] == "getx" && w.size() == 2) {
+            std::string ca;
+            { MockNamedValue a("a"); Store sa; ca = build(a, w[1], sa); }
+            if (ca.empty()) { vh::emit("> skip"); continue; }
+            vh::emit("> getx %s", ca.c_str());
+            g_tok = &w[1];
+            std::string k = kind_of(ca);
+            bool isobj = (k == "obj" || k == "cobj");
+            for (int x = 0; x < 13; x++) {
+                // the untyped object getters read the union without a type test: meaningful for object values only
+                if (x >= 9 && x <= 10 && !isobj) continue;
+                g_which = 10 + x;
+                g_returned = false;
+                size_t failures = vh::in_fixture(getter_body);
+                MockNamedValue::setDefaultComparatorsAndCopiersRepository(def);
+                if (failures == 0 && g_returned) vh::emit("%s ok %s", XGETTERS[x], g_xresult.c_str());
+                else if (failures > 0 && !g_returned) vh::emit("%s fail", XGETTERS[x]);
+                else vh::emit("%s inconsistent failures=%lu returned=%d", XGETTERS[x], (unsigned long) failures, g_returned ? 1 : 0);
+            }
+        }
+        else if (w[0] == "ladd" && w.size() == 3) {
+            std::string s1; const char* x = 0;
+            if (!name_arg(w[1], s1, x) || x == 0) { vh::emit("> skip"); continue; }
+            stores.push_back(std::unique_ptr<Store>(new Store()));
+            MockNamedValue* v = new MockNamedValue(SimpleString(x));
+            std::string ca = build(*v, w[2], *stores.back());
+            if (ca.empty()) { delete v; vh::emit("> skip"); continue; }
+            vh::emit("> ladd %s %s", lower(w[1]).c_str(), ca.c_str());
+            seq[v] = next_seq++;
+            list.add(v);
+            vh::emit("added %lu", seq[v]);
+        }
+        else if (w[0] == "lget" && w.size() == 2) {
+            std::string s1; const char* x = 0;
+            if (!name_arg(w[1], s1, x) || x == 0) { vh::emit("> skip"); continue; }
+            vh::emit("> lget %s", lower(w[1]).c_str());
+            MockNamedValue* v = list.getValueByName(x);
+            if (v) vh::emit("item %lu", seq.count(v) ? seq[v] : 0UL); else vh::emit("item none");
+        }
+        else if (w[0] == "llist" && w.size() == 1) {
+            vh::emit("> llist");
+            for (MockNamedValueListNode* p = list.begin(); p; p = p->next())
+                vh::emit("it %lu %s %s", seq.count(p->item()) ? seq[p->item()] : 0UL, shex(p->getName()).c_str(), shex(p->getType()).c_str());
+        }
+        else if (w[0] == "lclear" && w.size() == 1) { vh::emit("> lclear"); list.clear(); seq.clear(); }
+        else if ((w[0] == "rcmp" || w[0] == "rcop") && w.size() == 4) {
+            int r, id;
+            if (!parse_index(w[1], 3, r) || !valid_type(w[2]) || !parse_index(w[3], w[0] == "rcmp" ? 4 : 2, id) || id == 0) { vh::emit("> skip"); continue; }
+            vh::emit("> %s %d %s %d", w[0].c_str(), r, w[2].c_str(), id);
+            if (w[0] == "rcmp") repos[r].installComparator(w[2].c_str(), *g_cmps[id]);
+            else repos[r].installCopier(w[2].c_str(), *g_cops[id]);
+        }
+        else if (w[0] == "rget" && w.size() == 3) {
+            int r;
+            if (!parse_index(w[1], 3, r) || !valid_type(w[2])) { vh::emit("> skip"); continue; }
+            vh::emit("> rget %d %s", r, w[2].c_str());
+            vh::emit("got %d %d", cmp_id(repos[r].getComparatorForType(w[2].c_str())), cop_id(repos[r].getCopierForType(w[2].c_str())));
+        }
+        else if (w[0] == "rimport" && w.size() == 3) {
+            int r, r2;
+            if (!parse_index(w[1], 3, r) || !parse_index(w[2], 3, r2)) { vh::emit("> skip"); continue; }
+            vh::emit("> rimport %d %d", r, r2);
+            repos[r].installComparatorsAndCopiers(repos[r2]);
+        }
+        else if (w[0] == "rclear" && w.size() == 2) {
+            int r;
+            if (!parse_index(w[1], 3, r)) { vh::emit("> skip"); continue; }
+            vh::emit("> rclear %d", r);
+            repos[r].clear();
+        }
+        else if (w[0] == "rdefault" && w.size() == 2) {
+            int r;
+            if (w[1] == "none") { vh::emit("> rdefault none"); def = 0; }
+            else if (parse_index(w[1], 3, r)) { vh::emit("> rdefault %d", r); def = &repos[r]; }
+            else { vh::emit("> skip"); continue; }
+            MockNamedValue::setDefaultComparatorsAndCopiersRepository(def);
+        }
         else vh::emit("> skip");
     }
+    list.clear();
     MockNamedValue::setDefaultComparatorsAndCopiersRepository(0);
 }
 
